@@ -12,7 +12,7 @@ func init() {
 		ID:  "C17",
 		Run: runC17,
 		Decided: "six necessary structural clauses only: work that failed after it was dequeued is re-queued on every error edge (provide: failedProvide with the same prefix and keys; reprovide: failedReprovide and reschedule), and every region handed to a reprovide is released and rescheduled (R1); the address record sent is built in the same operation from selfAddrInfo(), i.e. the current addresses and the provider's own ID, and the keys reprovided after exploration are those of the covered prefix (R2); " +
-			"StopProviding removes from the provide queue and, in schedule mode, from the keystore, and reprovides load their keys from the keystore at reprovide time (R3); the buffered wrapper: a later start (not a provide-once) cancels an earlier stop, a stop is recorded, execution order is force-start, start, provide-once, stop (R4); the provide queue is persisted on Close and drained on resume (R5); going offline clears the provide queue and invalidates the prefix length, coming online re-measures and refreshes the schedule when it was offline and always catches up pending work (R6). Added after the seeded rounds: the buffered worker blocks only behind a flag that becomes true after a short dequeue and starts false (R4); claimed regions all reach provideRegions, every start cancels a queued stop, ExtendBinaryPrefix is only asked to extend (R7).",
+			"StopProviding removes from the provide queue and, in schedule mode, from the keystore, and reprovides load their keys from the keystore at reprovide time (R3); the buffered wrapper: a later start (not a provide-once) cancels an earlier stop, a stop is recorded, execution order is force-start, start, provide-once, stop (R4); the provide queue is persisted on Close and drained on resume (R5); going offline clears the provide queue and invalidates the prefix length, coming online re-measures and refreshes the schedule when it was offline and always catches up pending work (R6). Added after the seeded rounds: the buffered worker blocks only behind a flag that becomes true after a short dequeue and starts false (R4); claimed regions all reach provideRegions, every start cancels a queued stop, ExtendBinaryPrefix is only asked to extend (R7). Round 4: every key of a first provide is remembered for the failure path, whatever else switches the collection on (R8).",
 		NotDecided: "THE BEHAVIOURAL CORE: the schedule itself, timing (`at least once per interval plus delay`), region coverage, catch-up bounds, which peers are the r nearest — all statements about runtime values over virtual time that no shape argument bounds.",
 	})
 }
